@@ -122,6 +122,7 @@ func (db *DB) openMemTable(fid, flags int) (*memTable, error) {
 	// Have a callback set to delete WAL when skiplist reference count goes down to zero. That is,
 	// when it gets flushed to L0.
 	s.OnClose = func() {
+		y.VerifIO("unlink", mt.wal.path)
 		if err := mt.wal.Delete(); err != nil {
 			db.opt.Errorf("while deleting file: %s, err: %v", filepath, err)
 		}
@@ -153,6 +154,7 @@ func (db *DB) mtFilePath(fid int) string {
 }
 
 func (mt *memTable) SyncWAL() error {
+	y.VerifIO("msync", mt.wal.path)
 	return mt.wal.Sync()
 }
 
@@ -272,6 +274,7 @@ func (lf *logFile) Truncate(end int64) error {
 	}
 	y.AssertTrue(!lf.opt.ReadOnly)
 	lf.size.Store(uint32(end))
+	y.VerifIO("truncate", lf.path)
 	return lf.MmapFile.Truncate(end)
 }
 
@@ -301,6 +304,7 @@ func (lf *logFile) encodeEntry(buf *bytes.Buffer, e *Entry, offset uint32) (int,
 		// TODO: no need to allocate the bytes. we can calculate the encrypted buf one by one
 		// since we're using ctr mode of AES encryption. Ordering won't changed. Need some
 		// refactoring in XORBlock which will work like stream cipher.
+		y.VerifIV("log", lf.dataKey.KeyId, lf.generateIV(offset))
 		eBuf := make([]byte, 0, len(e.Key)+len(e.Value))
 		eBuf = append(eBuf, e.Key...)
 		eBuf = append(eBuf, e.Value...)
@@ -327,6 +331,7 @@ func (lf *logFile) writeEntry(buf *bytes.Buffer, e *Entry, opt Options) error {
 	if err != nil {
 		return err
 	}
+	y.VerifIO("mmapwrite", lf.path)
 	y.AssertTrue(plen == copy(lf.Data[lf.writeAt:], buf.Bytes()))
 	lf.writeAt += uint32(plen)
 
@@ -407,6 +412,7 @@ func (lf *logFile) generateIV(offset uint32) []byte {
 
 func (lf *logFile) doneWriting(offset uint32) error {
 	if lf.opt.SyncWrites {
+		y.VerifIO("msync", lf.path)
 		if err := lf.Sync(); err != nil {
 			return y.Wrapf(err, "Unable to sync value log: %q", lf.path)
 		}
@@ -535,6 +541,7 @@ func (lf *logFile) zeroNextEntry() {
 }
 
 func (lf *logFile) open(path string, flags int, fsize int64) error {
+	y.VerifIO("open", path)
 	mf, ferr := z.OpenMmapFile(path, flags, int(fsize))
 	lf.MmapFile = mf
 
@@ -607,6 +614,7 @@ func (lf *logFile) bootstrap() error {
 	y.AssertTrue(len(lf.baseIV) == 12)
 
 	// Copy over to the logFile.
+	y.VerifIO("mmapwrite", lf.path)
 	y.AssertTrue(vlogHeaderSize == copy(lf.Data[0:], buf))
 
 	// Zero out the next entry.
